@@ -518,10 +518,45 @@ impl PoolMap {
             if let Some(links) = self.links.inner.get_mut(&tx_short_id) {
                 links.children.extend(children);
             }
-            self.update_descendants_index_key(entry, EntryOp::Add);
+            // The entry was inserted between transactions that are already in the pool (a detached
+            // transaction re-added after a reorg while its children stayed): its descendants are
+            // new descendants of its ancestors and its ancestors are new ancestors of its
+            // descendants, so recompute the aggregates of everything it connects.
+            let mut affected = self.calc_ancestors(&tx_short_id);
+            affected.extend(self.calc_descendants(&tx_short_id));
+            affected.insert(tx_short_id);
+            for id in &affected {
+                self.recalc_entry_weights(id);
+            }
+            return;
         }
         // update ancestor's index key for adding new entry
         self.update_ancestors_index_key(entry, EntryOp::Add);
+    }
+
+    // Recompute the ancestors/descendants aggregates of an entry from the links
+    fn recalc_entry_weights(&mut self, id: &ProposalShortId) {
+        let ancestors: Vec<TxEntry> = self
+            .calc_ancestors(id)
+            .iter()
+            .filter_map(|anc_id| self.get(anc_id).cloned())
+            .collect();
+        let descendants: Vec<TxEntry> = self
+            .calc_descendants(id)
+            .iter()
+            .filter_map(|desc_id| self.get(desc_id).cloned())
+            .collect();
+        self.entries.modify_by_id(id, |e| {
+            e.inner.reset_statistic_state();
+            for ancestor in &ancestors {
+                e.inner.add_ancestor_weight(ancestor);
+            }
+            for descendant in &descendants {
+                e.inner.add_descendant_weight(descendant);
+            }
+            e.score = e.inner.as_score_key();
+            e.evict_key = e.inner.as_evict_key();
+        });
     }
 
     // return (ancestors, parents, cell_ref_parents)
